@@ -7,7 +7,9 @@ text of one property.  For each one the patch is applied to /repo
 (`git -C /repo apply`), all claimed checks are run on that tree (quick tier,
 evidence writing disabled so that evidence always describes the unchanged
 tree), and the patch is undone straight afterwards (`git -C /repo checkout --
-.`).  The outcome is written to seeded/<id>/result.json and summarised in
+.`).  With `--jobs N` every seed is instead applied to its own scratch copy of
+/repo's tree under /tmp (removed afterwards) and N seeds run at once; /repo is not
+touched.  The outcome is written to seeded/<id>/result.json and summarised in
 seeded/RESULTS.json.  Nothing is ever committed to /repo."""
 import json, os, re, subprocess, sys
 HERE = os.path.dirname(os.path.dirname(os.path.abspath(__file__)))
@@ -23,6 +25,44 @@ def clean():
     r = subprocess.run(['git', '-C', REPO, 'status', '--porcelain', '--untracked-files=no'],
                        stdout=subprocess.PIPE, text=True)
     return r.stdout.strip() == ''
+
+
+def run_one_scratch(sid, props):
+    """the same, against a private scratch copy of /repo's tree (parallel runs)"""
+    import shutil
+    d = os.path.join(HERE, 'seeded', sid)
+    patch = os.path.join(d, 'patch.diff')
+    tree = '/tmp/seedrun-%s' % sid
+    cache = '/tmp/seedrun-cache-%s' % sid
+    shutil.rmtree(tree, ignore_errors=True)
+    subprocess.run(['rsync', '-a', '--exclude', '.git', SCRATCH_BASE + '/', tree + '/'], check=True)
+    r = subprocess.run(['patch', '-s', '-p1', '-i', patch], cwd=tree, stdout=subprocess.PIPE,
+                       stderr=subprocess.STDOUT, text=True)
+    if r.returncode != 0:
+        shutil.rmtree(tree, ignore_errors=True)
+        return {'id': sid, 'applied': False, 'detail': r.stdout[-400:]}
+    out = {'id': sid, 'applied': True, 'checks': {}, 'caught_by': []}
+    env = dict(os.environ, YRSA_NO_EVIDENCE='1', YARA_REPO=tree, YRSA_CACHE=cache)
+    for p in props:
+        c = subprocess.run([os.path.join(HERE, 'check'), p, '--tier', 'quick'], env=env,
+                           stdout=subprocess.PIPE, stderr=subprocess.STDOUT, text=True)
+        lines = [l for l in c.stdout.splitlines()
+                 if l.endswith(']') and ': R' in l and 'VIOLATION' not in l and not l.startswith('[')]
+        m = re.search(r'obligations=(\d+) discharged=(\d+)', c.stdout)
+        out['checks'][p] = {'exit': c.returncode, 'reports': lines[:6],
+                            'obligations': int(m.group(1)) if m else None}
+        if c.returncode == 1:
+            out['caught_by'].append(p)
+        elif c.returncode != 0:
+            out.setdefault('broken', []).append(p)
+            out['checks'][p]['tail'] = c.stdout[-300:]
+    shutil.rmtree(tree, ignore_errors=True)
+    shutil.rmtree(cache, ignore_errors=True)
+    json.dump(out, open(os.path.join(d, 'result.json'), 'w'), indent=1)
+    return out
+
+
+SCRATCH_BASE = '/tmp/seedrun-base'
 
 
 def run_one(sid, props):
@@ -72,14 +112,35 @@ def baseline(props):
 def main():
     ids = sys.argv[1:] or sorted(x for x in os.listdir(os.path.join(HERE, 'seeded'))
                                  if os.path.exists(os.path.join(HERE, 'seeded', x, 'patch.diff')))
+    jobs = 0
+    if '--jobs' in sys.argv:
+        k = sys.argv.index('--jobs')
+        jobs = int(sys.argv[k + 1])
+        del sys.argv[k:k + 2]
+        ids = [x for x in ids if x not in (str(jobs),)]
+        ids = sys.argv[1:] or sorted(x for x in os.listdir(os.path.join(HERE, 'seeded'))
+                                     if os.path.exists(os.path.join(HERE, 'seeded', x, 'patch.diff')))
     props = claimed()
     base = baseline(props)
     summary = {}
+    results = {}
+    if jobs:
+        # parallel mode: every seed in its own scratch copy of /repo's committed tree
+        import shutil
+        from concurrent.futures import ThreadPoolExecutor
+        if not clean():
+            sys.exit('/repo has local modifications')
+        shutil.rmtree(SCRATCH_BASE, ignore_errors=True)
+        subprocess.run(['rsync', '-a', '--exclude', '.git', REPO + '/', SCRATCH_BASE + '/'], check=True)
+        with ThreadPoolExecutor(max_workers=jobs) as ex:
+            for sid, o in zip(ids, ex.map(lambda s_: run_one_scratch(s_, props), ids)):
+                results[sid] = o
+        shutil.rmtree(SCRATCH_BASE, ignore_errors=True)
     p = os.path.join(HERE, 'seeded', 'RESULTS.json')
     if os.path.exists(p):
         summary = json.load(open(p))
     for sid in ids:
-        o = run_one(sid, props)
+        o = results[sid] if sid in results else run_one(sid, props)
         meta = {}
         mp = os.path.join(HERE, 'seeded', sid, 'meta.json')
         if os.path.exists(mp):
